@@ -49,7 +49,7 @@ def case_strategy():
         h = draw(H.hierarchies(2, 7))
         knames = H.class_names(h)
         env = H.build(h)
-        corpus = [["inst", n] for n in knames] + [["int", 1], ["str", "a"], ["inst", "object"]]
+        corpus = [["inst", n] for n in knames] + [["int", 1], ["str", "a"], ["inst", "object"], ["eqinst", knames[0]]]
         fit = G.fitting_fn(env, corpus)
         plain = st.sampled_from([["cls", n] for n in knames] * 3 + [["obj"], ["obj"], ["cls", "PA"], ["cls", "PB"],
                                                                      ["cls", "int"]])
